@@ -35,7 +35,7 @@ SHRINK_LISTS = ['lives']
 NSS = ['/', '/a', '/b']
 ENDS = ['cdisc_close', 'sever', 'sdisc_sever', 'eio_close', 'sever_halfopen',
         'close', 'sever', 'ping_timeout', 'sdisc_ping_expired',
-        'emit_ping_expired']
+        'emit_ping_expired', 'sdisc_race_sever']
 STEPS = ['room', 'room', 'event', 'event', 'event_unhandled', 'garbage',
          'partial_binary', 'emit_cb', 'emit_cb', 'leave', 'reconnect_ns',
          'cdisc', 'ack_partial', 'full_binary']
@@ -52,7 +52,10 @@ def gen(rng, tier):
                               'ValueError', 'TypeError']),
            'growth': rng.random() < 0.12,
            'resident': rng.random() < 0.5,
-           'async_handlers': rng.random() < 0.5}
+           'async_handlers': rng.random() < 0.5,
+           # asyncio: the boundary socketio -> engine.io suspends for a
+           # seeded time
+           'send_pauses': rng.random() < 0.4}
     lives = []
     ngen = rng.randrange(2, 6)
     for g in range(ngen):
@@ -129,7 +132,9 @@ def run(case):
     cfg = case['cfg']
     kw = {'ping_interval': 5, 'ping_timeout': 3}
     w = make_world(cfg['mode'], seed=case['seed'],
-                   choices_replay=case.get('choices'))
+                   choices_replay=case.get('choices'),
+                   send_pauses=(0.0, 0.001, 0.004)
+                   if cfg.get('send_pauses') else None)
     try:
         return _run(case, cfg, w, kw)
     finally:
@@ -325,6 +330,15 @@ def _run(case, cfg, w, kw):
                 if pp == p:
                     w.api('s', 'disconnect', sid, namespace=ns)
             w.settle()
+            pe.sever(0.0)
+        elif end == 'sdisc_race_sever':
+            # the application disconnects the client while its transport is
+            # going away: the loss is processed while disconnect() is
+            # suspended in a send (asyncio) or before it gets to run
+            for (pp, ns), sid in sc.live_sids():
+                if pp == p:
+                    w.api('s', 'disconnect', sid, namespace=ns)
+            w.advance(w.choices.pick('sched', (0.0, 0.0005, 0.002), 'rsv'))
             pe.sever(0.0)
         elif end == 'eio_close':
             # engine.io CLOSE, then the client closes the websocket
